@@ -21,6 +21,9 @@ pub struct SvpCase {
 pub struct SeqVsPar {
     pub prop: &'static str,
     pub name: &'static str,
+    /// only the evaluation of large prepared mixed populations (40..100 individuals over >= 6
+    /// bits: dozens of distinct solutions and of duplicates in flight at once)
+    pub mix: bool,
 }
 
 fn digest_diff(a: &Digest, b: &Digest) -> Option<&'static str> {
@@ -55,8 +58,16 @@ impl World for SeqVsPar {
         let kind = if self.prop == "C08" && g.chance(0.03) {
             Kind::BigInit
         } else if self.prop == "C08" || self.prop == "C16" { *g.pick(&SHIPPED) } else { *g.pick(&crate::checks::tworld::all_kinds()) };
+        let kind = if self.mix { Kind::EvalMix } else { kind };
         let opts = GenOpts { penalty: g.chance(0.3), max_iters: tier.pick(6, 15), evaluations_term: self.prop != "C16", log: true };
-        let case = gen_case(&mut g, kind, &opts);
+        let mut case = gen_case(&mut g, kind, &opts);
+        if self.mix {
+            case.params.insert("mix_max".into(), (60 + g.below(100)) as f64);
+            if let ProblemSpec::Bin(b) = &mut case.problem {
+                b.dim = 6 + g.below(5);
+            }
+            case.term = Term::Iterations(1 + g.below(3) as u32);
+        }
         let mut sg = rng::stream(run_seed, "schedule");
         let n = tier.pick(3, 8);
         let scheds = (0..n).map(|_| gen_sched(&mut sg)).collect();
@@ -93,6 +104,14 @@ impl World for SeqVsPar {
             bump(&mut out.counters, "fault:schedule (non-default interleavings explored)", 1);
             bump(&mut out.counters, "scheduler steps", sched_steps);
             bump(&mut out.counters, "context switches", switches);
+            if let Some(n) = par.counters.get("fault:worker-stalled") {
+                bump(&mut out.counters, "fault:worker-stalled (descheduled for 20..400 scheduling points)", *n);
+            }
+            for (k, v) in &par.counters {
+                if k.starts_with("probe:") {
+                    bump(&mut out.counters, k, *v);
+                }
+            }
             bump(&mut out.counters, &format!("parallel runs with {} workers", s.workers), 1);
             if par.max_inflight >= 2 {
                 bump(&mut out.counters, "probe:runs with >= 2 objective calls in flight", 1);
@@ -286,7 +305,7 @@ fn supplied<P: crate::tw::problems::HProblem>(
 
 pub fn run(tier: Tier, seed: u64, known: &KnownFindings) -> CheckReport {
     let mk = |batch: &'static str, runs: u64| BatchConfig { check_id: "C08", batch, base_seed: seed, tier, runs, threads: threads(), known, samples: 1 };
-    let b1 = run_batch(&SeqVsPar { prop: "C08", name: "seq-vs-par" }, &mk("sequential-vs-parallel", tier.pick(2_000, 80_000)));
+    let b1 = run_batch(&SeqVsPar { prop: "C08", name: "seq-vs-par", mix: false }, &mk("sequential-vs-parallel", tier.pick(2_000, 80_000)));
     let b2 = run_batch(&Generators, &mk("generators", tier.pick(20_000, 300_000)));
     let b3 = {
         // par_experiment prints a line per call
